@@ -219,6 +219,7 @@ class Impl:
         self.reports: list[tuple[str, str]] = []   # (runner id, 'alive' | 'dead' | 'unborn') at call time
         self.runner = None
         self.ever_dead: set[int] = set()
+        self.dead_rids: set[str] = set()           # runner ids whose worker process died
 
     # -- plumbing ---------------------------------------------------------------------------------
     def handles(self) -> dict[str, Any]:
@@ -239,6 +240,8 @@ class Impl:
                 if h is None and rid in self.env.rid2idx:
                     h = self.env.procs[self.env.rid2idx[rid]]
                 st = "unborn" if h is None or not h.started else ("alive" if h.is_alive() else "dead")
+                if rid in self.dead_rids:
+                    st = "dead-id"      # the id of a worker that died, whatever process carries it now
                 self.reports.append((rid, st))
             return real(runner_ids, *a, **k)
 
@@ -274,10 +277,13 @@ class Impl:
                 "process": lambda: r.max_parallel_slots}[self.kind]()
 
     def die(self, idxs) -> None:
+        idx2rid = {h.idx: rid for rid, h in self.handles().items()} if self.runner is not None else {}
         for i in idxs:
             if 0 <= i < len(self.env.procs):
                 if self.env.procs[i].started:
                     self.ever_dead.add(i)
+                    if i in idx2rid and self.env.procs[i].is_alive():
+                        self.dead_rids.add(idx2rid[i])
                 self.env.procs[i].die()
 
     def queued(self) -> int:
@@ -387,6 +393,10 @@ def judge_reports(im: Impl, out: Outcome, reps, alive_after) -> None:
     for r, st in reps:
         if not isinstance(r, int):
             out.flags.append((f"{mode}:heartbeat-for-unknown-id", f"register_runner_heartbeats got {r}, which is no worker of this runner", at))
+        elif st == "dead-id":
+            out.flags.append((f"{mode}:heartbeat-for-dead-worker-id",
+                              f"register_runner_heartbeats was given the runner id of worker {r}, which died: the id is reported alive again (carried by a "
+                              f"replacement), so the dead worker's unfinished invocations never become recoverable", at))
         elif st == "dead" or r in im.ever_dead and st != "alive":
             out.flags.append((f"{mode}:heartbeat-for-dead-worker",
                               f"register_runner_heartbeats was given worker {r}, whose process is dead (died earlier: {r in im.ever_dead})", at))
